@@ -552,9 +552,29 @@ Definition normalise2_gen (fixed : bool) (s : list N) : list N :=
   let '(m2, fm) := mask_from m in
   unmask (unmask_from (strip_comments_gen fixed m2 (f_dash f || f_block f)) fm) masks.
 
-(* backticksToDoubleQuotes, strings.TrimSpace (ASCII part; the correspondence feeds
-   normalizeSQLForShow only strings whose ends are not non-ASCII spaces) *)
-Definition backticks_to_dq (s : list N) : list N := map (fun c => if c =? 96 then 34 else c) s.
+(* backticksToDoubleQuotes (as of /repo de6f9a4): only a backtick OUTSIDE a '...' / "..." literal
+   becomes a double quote; [inq] is the Go variable inQuote (0 = not inside a literal); a doubled
+   quote inside a literal is copied as two bytes (the Go loop's extra i++).  The
+   strings.ContainsRune fast path returns the text itself, which is what the loop yields too.
+   strings.TrimSpace: ASCII part; the correspondence feeds normalizeSQLForShow only strings
+   whose ends are not non-ASCII spaces. *)
+Fixpoint backticks_loop (inq : N) (l : list N) : list N :=
+  match l with
+  | [] => []
+  | c :: r =>
+      if negb (inq =? 0) then
+        if c =? inq then
+          match r with
+          | c2 :: r2 => if c2 =? inq then c :: c2 :: backticks_loop inq r2 else c :: backticks_loop 0 r
+          | [] => c :: backticks_loop 0 r
+          end
+        else c :: backticks_loop inq r
+      else if (c =? 39) || (c =? 34) then c :: backticks_loop c r
+      else if c =? 96 then 34 :: backticks_loop 0 r
+      else c :: backticks_loop 0 r
+  end.
+Definition backticks_to_dq (s : list N) : list N :=
+  if existsb (fun c => c =? 96) s then backticks_loop 0 s else s.
 Definition is_go_space (c : N) : bool := (c =? 32) || in_range 9 13 c.
 Fixpoint trim_left (l : list N) : list N :=
   match l with c :: r => if is_go_space c then trim_left r else l | [] => [] end.
